@@ -71,6 +71,9 @@ func (i *interpreter) zvCall(fr *frame, fn *ssa.Function, args []value) value {
 			out[k] = s
 		}
 		return out
+	case "NoSummaries":
+		i.noSummary = true
+		return nil
 	case "Symbolic":
 		return true
 	case "Tier":
